@@ -22,7 +22,9 @@ add("C02",
     "super-additive closure of a signed table, integer-data L2; float- or integer-typed output; integer and "
     "non-integer penalties), the built-in costs and a user-defined L1 cost on structured data in several units; "
     "every prefix score, the final score and the returned segmentation are compared with an O(n^2) un-pruned "
-    "dynamic programme that is itself self-tested against exhaustive enumeration. Bounded exploration "
+    "dynamic programme that is itself self-tested against exhaustive enumeration; detectors may have a past (cost pre-fitted on wider "
+    "data, buffer refilled in place) and whole-numbered data may arrive as int64 counts; a long_series facet compares every prefix "
+    "score of series of up to 33000 samples with the same recursion. Bounded exploration "
     "(n<=16 tables, n<=100 data), not a proof.",
     "Trusted: NumPy/pandas/sktime; oracle in /verif/oracles/reference.py; for built-in costs the cost table "
     "comes from a fresh instance of the same cost class (cost values themselves are decided by C01) and "
@@ -34,7 +36,8 @@ add("C01",
     "Generated data matrices (exact/generic/structured/constant/duplicated columns), both parameter modes, generated fixed "
     "parameters and interval batches; each returned row is compared with the cost computed directly from X[s:e] under a stated "
     "rounding-error enclosure; singular slices must raise the documented error; rows must not depend on the batch; invalid "
-    "fixed parameters must raise ValueError. Bounded exploration (n<=120, p<=4).",
+    "fixed parameters must raise ValueError; refilled buffers, bystander objects of the same class and a wide_data facet (p up to 160, "
+    "units 1e-3..1e3) are included. Bounded exploration (n<=120 with p<=4, n~4p for wide data).",
     "Trusted: NumPy long double arithmetic, the error model B=32(N+1)^2 eps M^2 of DESIGN.md 3.4; ill-conditioned multivariate "
     "slices (cond>1e10) accept either outcome.",
     "DESIGN.md section 4, C01")
@@ -44,7 +47,9 @@ add("C03",
     "savings may be negative) with CAPA and with MVCAPA under user penalty "
     "callables (betas zero/equal/arbitrary), and built-in savings with all penalty families on structured data; every cumulative "
     "score, the re-evaluated reported anomalies, interval well-formedness and ignore_point_anomalies are compared with an un-pruned "
-    "DP that is self-tested against exhaustive enumeration. Bounded exploration (n<=14 tables, n<=100 data).",
+    "DP that is self-tested against exhaustive enumeration; further facets place MVCAPA cases at the pruning boundary, run 12000 cheap "
+    "small-integer series per quick run with a binding max_segment_length, and compare series of up to 66000 samples with the un-pruned "
+    "recursion. Bounded exploration (n<=14 tables, n<=100 structured data, long series with bounded max_segment_length).",
     "Trusted: oracle in oracles/reference.py; built-in penalty functions are inputs here (pinned by C15); optimality asserted only "
     "where the evaluated savings are sub-additive and non-negative.",
     "DESIGN.md section 4, C03")
@@ -53,7 +58,8 @@ add("C06",
     "Generated data, admissible 3- and 4-point cuts, four costs (incl. a user-defined L1 cost) and generated fixed parameters; "
     "ChangeScore/Saving/LocalAnomalyScore are compared with their defining cost differences, CUSUM^2 and L2Saving with their "
     "cost-based twins and with long-double definitional values, plus non-negativity, C_opt<=C_theta and the split inequality; "
-    "converters pass scores through by identity. Bounded exploration (n<=80).",
+    "converters pass scores through by identity; refilled buffers, int64 counts, fixed-parameter local scores and a huge_series facet "
+    "(scorers on 3.4-8 million samples against long-double definitions). Bounded exploration (n<=80; 4 huge cells).",
     "Trusted: cost values (decided by C01); inequalities asserted only where slice variances exceed 1e-8 x scale^2.",
     "DESIGN.md section 4, C06")
 
@@ -63,7 +69,8 @@ add("C04",
     "scorers and structured data (events at first/last admissible positions, spikes, adjacent events, constant data, n at the "
     "minimum); predict's frame is checked against a predicate written from the property text (range index, int64 strictly "
     "increasing changepoints with segment / bandwidth limits, sorted disjoint non-empty left-closed intervals, labels 1..K, "
-    "length limits, strict interior for circular binseg, valid distinct icolumns). Bounded exploration (n<=90, p<=4).",
+    "length limits, strict interior for circular binseg, valid distinct icolumns). Input as array or DataFrame (nine index kinds, eight column-label kinds); a second "
+    "predict on the same detector (frame shortened in place, shorter object, refilled buffer) is held to the same predicate. Bounded exploration (n<=90, p<=4).",
     "Trusted: the predicate in checks/common.py; negative tuned thresholds (rounding on constant data) are outside the domain "
     "and counted; the documented not-PD error is accepted for multivariate Gaussian scorers.",
     "DESIGN.md section 4, C04")
@@ -94,7 +101,8 @@ add("C05",
     "Hand-built valid sparse outputs (changepoints, disjoint intervals incl. adjacent / length-1 / touching 0 and n, column "
     "subsets) and every supported index type are passed through the public static converters: the dense frame must equal the "
     "positional labelling, carry exactly the given index and round-trip to the sparse input; the same through fit/predict/"
-    "transform of all seven detectors on DataFrames with generated index and column labels. Bounded exploration (n<=30).",
+    "transform of all seven detectors on DataFrames with generated index and column labels. Indexes may be named (also like the library's own "
+    "output columns) and may repeat a time stamp; outputs are compared with a snapshot taken before the call. Bounded exploration (n<=30; p up to 130 for the static subset facet).",
     "Trusted: pandas index construction; the labelling model in oracles/reference.py; affected columns are compared as sets.",
     "DESIGN.md section 4, C05")
 
@@ -104,7 +112,8 @@ add("C07",
     "0 and tuned), built-in scorers on structured data and user-defined integer Table/Function change scores (ties); the "
     "candidate table is checked for existence/bounds/lengths, each row's score and maximiser are recomputed by brute force, the "
     "reported changepoints must be one of the outcomes of the greedy rule under any tie-break, plus support, coverage and the "
-    "subset relation under a larger threshold. Bounded exploration (n<=60).",
+    "subset relation under a larger threshold; detectors fitted on other data / with a past, user subclasses and level-dependent user scores, "
+    "int16 data, and a long_series facet (3.4-5 million samples, max_interval_length = n). Bounded exploration (n<=60; 5 long cells).",
     "Trusted: change score values (C06); greedy model in oracles/reference.py (DFS capped at 2000 nodes, fallback to the "
     "stated consequences); thresholds >= 0 only.",
     "DESIGN.md section 4, C07")
@@ -113,7 +122,8 @@ add("C08",
     "Generated moving-window settings (bandwidth from 1, admissible min_detection_interval, threshold scales incl. 0 and tuned), "
     "built-in and integer Table/Function change scores; every score is compared with the change score of X[t-b:t] vs X[t:t+b] "
     "(0 elsewhere) and, for the mean-change scores, with the definitional statistic from the rows; changepoints with the "
-    "peak-of-run model (any maximal position accepted); reversed series maps scores and changepoints t -> n-t. Bounded (n<=80).",
+    "peak-of-run model (any maximal position accepted); reversed series maps scores and changepoints t -> n-t. Further facets prescribe the score curve "
+    "through a user-defined score (runs around min_detection_interval) and run series with n p > 2^16. Bounded (n<=80; bandwidth<=16; 20 long cells).",
     "Trusted: error model of DESIGN.md 3.4 for the reversal tolerance; discrete comparison only under the margin rule.",
     "DESIGN.md section 4, C08")
 add("C09",
@@ -121,7 +131,8 @@ add("C09",
     "Generated circular-binseg settings (msl from 1, max_interval_length incl. 2*msl, growth factor, threshold scales incl. 0 and "
     "tuned), local scores from L2 / Gaussian / user L1 costs and integer Table/Function local scores; every table row's score and "
     "inner interval are recomputed over all admissible inner intervals, candidate-free rows must stay at 0, the reported anomalies "
-    "must be an outcome of the greedy overlap-removal rule, and a larger threshold returns a subset. Bounded (n<=30).",
+    "must be an outcome of the greedy overlap-removal rule, and a larger threshold returns a subset; series of 150-240 samples with a function "
+    "score, > 1000 anomalies (many_anomalies), a covariance cost, level-dependent user scores on a level of 9e9. Bounded (n<=30 generic, long cells up to 12000).",
     "Trusted: local anomaly score values (C06); greedy model in oracles/reference.py; thresholds >= 0 only.",
     "DESIGN.md section 4, C09")
 
@@ -140,7 +151,8 @@ add("C16",
     "Generated multivariate data (p 2..6) with bumps/spikes on column subsets, all collective penalty families x scales, point "
     "family sparse/dense, three savings, DataFrame input with generated index/columns; for every reported anomaly the savings "
     "of a fresh instance are sorted and k* recomputed; icolumns must be exactly those k* columns in decreasing order (under "
-    "the tie margin) and transform must mark exactly them. Bounded exploration (n<=50).",
+    "the tie margin) and transform must mark exactly them; frames fitted under the same labels in another order, buffers refilled in place, "
+    "int64 counts, one callable object for both penalties. Bounded exploration (n<=50).",
     "Trusted: saving values (C06), point penalty family values (C15); ties excluded by a 1e-6 margin, then only the order-"
     "free consequences are asserted.",
     "DESIGN.md section 4, C16")
@@ -149,7 +161,8 @@ add("C17",
     "Wrapped detector in {user-defined detector returning generated changepoints, PELT, MovingWindow, SeededBinarySegmentation}, "
     "statistics incl. user functions, bounds drawn from the data's own statistics (boundary equality occurs), data as 1-D/2-D "
     "array, Series or DataFrame with generated index; the reported anomalies must equal the out-of-range segments of the "
-    "clone's segmentation, each on its own; the user's detector must stay unfitted and unaltered. Bounded (n<=40).",
+    "clone's segmentation, each on its own; the user's detector must stay unfitted and unaltered; second phases (set_params on the user's "
+    "detector + new fit, buffer refilled in place), a label-based user detector, infinite bounds. Bounded (n<=40).",
     "Trusted: the wrapped detector's own predict (clone) as source of the segmentation.",
     "DESIGN.md section 4, C17")
 add("C18",
@@ -157,7 +170,7 @@ add("C18",
     "Generated n (from 1), p, seeds, changepoint / disjoint-anomaly lists, scalar / shared-vector / per-segment means and "
     "variances, alternating-data arguments, outlier counts and sizes; identical calls must return identical n x p frames with "
     "index 0..n-1, equal to mean + sqrt(var) x Z on each requested segment and Z elsewhere; outliers exactly n_outliers evenly "
-    "spaced rows first..last; inconsistent arguments raise ValueError. Bounded (n<=60).",
+    "spaced rows first..last; inconsistent arguments raise ValueError; returned frames are edited in place before the next call. Bounded (n<=60).",
     "Trusted: scipy's random stream for a fixed seed (the relation is checked against the generator's own zero-mean unit-"
     "variance output).",
     "DESIGN.md section 4, C18")
@@ -167,7 +180,8 @@ add("C11",
     "For every detector a representation (2-D/1-D ndarray, Series, DataFrame x float64/int64 x seven index kinds x column labels) "
     "is drawn independently for fit, update, predict, transform and transform_scores; fitted thresholds/penalties, sparse "
     "detections (incl. labels and icolumns), dense labels and scores must equal those of the canonical run and dense outputs "
-    "must carry X's own index; eleven scorer configurations likewise for fit/evaluate. Bounded exploration (n<=30, p<=3).",
+    "must carry X's own index; eleven scorer configurations likewise for fit/evaluate. Whole-numbered data also as int32 / int16 and "
+    "as counts up to 5e9, bool indicator columns, 1-3 update chunks with their own dtype. Bounded exploration (n<=30, p<=3).",
     "Trusted: pandas index construction; update is compared between containers of the same kind (arrays = default-index "
     "frames, pandas objects with a continuing index).",
     "DESIGN.md section 4, C11")
@@ -177,7 +191,8 @@ add("C12",
     "and score tables must agree within the prefix-sum error model (cuts mirrored for reversal, columns permuted), PELT's / "
     "CAPA's result on the transformed data must attain the original optimum when re-evaluated on the original objective, "
     "threshold detectors' detections must be equal whenever the decision margin is satisfied, MVCAPA's icolumns map through "
-    "the permutation. Bounded exploration (n<=40, p<=3).",
+    "the permutation; integer-typed originals on a high level, one fitted detector on a column-permuted labelled frame, a wide_data facet "
+    "(p up to 160). Bounded exploration (n<=40, p<=3; 16 wide cells).",
     "Trusted: error model of DESIGN.md 3.4; near-degenerate slices (variance below 1e-8 x scale^2) are skipped for Gaussian "
     "scorers and counted.",
     "DESIGN.md section 4, C12")
@@ -189,7 +204,9 @@ add("C10",
     "instances and a pool of datasets with different n and p; after every output-producing call the same call on a freshly "
     "constructed object fitted on the model's training data (update => new.combine_first(old)) must give the same output or "
     "the same exception class; after every step get_params(deep) must equal the specification and the datasets their "
-    "pristine copies. The shrunk op list is the replay file. Bounded exploration (<= 45 steps, 4 detector slots).",
+    "pristine copies. The shrunk op list is the replay file. Two facets of "
+    "generated targeted histories (scorer state that depends on earlier data; several scorers of one class asked for the same segments) replay "
+    "through the same interpreter. Bounded exploration (<= 45 steps, 4 detector slots).",
     "Trusted: sktime clone/set_params/reset semantics (mirrored by the model); shared instances are shared between detectors "
     "only; objects whose re-fit or update failed are retired (their state is not defined by the documentation).",
     "DESIGN.md section 4, C10")
